@@ -88,6 +88,18 @@ theorem src_get_address_ranges_for_area_eq_model (fm : FMap) (y0 x0 c0 ey ex ez 
       .ok ((getAddressRangesForArea fm y0 x0 c0 ey ex ez).map SrcNpuAccess.pyAR) :=
   SrcNpuAccess.garfa fm y0 x0 c0 ey ex ez sd sh sw hs
 
+/-- `get_address_ranges(fm)`: one range per tile in use; the list returned by the source, without its
+    `None` entries (which is how the model represents it), is the model's list -/
+theorem src_get_address_ranges_eq_model (fm : FMap) (sd sh sw : Int)
+    (hs : ∀ s, fm.strides = some s → s.depth = sd ∧ s.height = sh ∧ s.width = sw) :
+    Except.map (List.filterMap id)
+      (get_address_ranges (.py fm.elemBytes) (.py fm.region) (.py fm.shape.depth) (.py fm.shape.height)
+        (.py fm.shape.width) (.py sd) (.py sh) (.py sw) (.py fm.tiles.height0) (.py fm.tiles.height1)
+        (.py fm.tiles.width0) [.py fm.tiles.a0, .py fm.tiles.a1, .py fm.tiles.a2, .py fm.tiles.a3]
+        fm.nhcwb16 (!fm.nhcwb16) fm.strides.isNone) =
+      .ok ((getAddressRanges fm).map SrcNpuAccess.pyAR) :=
+  SrcNpuAccess.gars fm sd sh sw hs
+
 /-- `ranges_overlap(range1, range2)`: same region and overlapping address intervals -/
 theorem src_ranges_overlap_eq_model (a b : ARange) :
     ranges_overlap (.py a.address) (.py a.length) (.py a.region) (.py b.address) (.py b.length) (.py b.region) =
